@@ -40,7 +40,7 @@ def genRows (n mult md : Nat) : List Row :=
   (List.range n).map (fun i => [.int ((i * mult % md : Nat) : Int), .int (i : Int)])
 
 def parseTable (s : String) : Option (List Row) :=
-  if s == "-" then some []
+  if s == "-" || s.startsWith "e" then some []
   else if s.startsWith "gen:" then
     match (s.drop 4).toString.splitOn ":" with
     | [n, m, d] => do pure (genRows (← n.toNat?) (← m.toNat?) (← d.toNat?))
@@ -178,7 +178,8 @@ def handleChain (src table : String) (opToks : List String) : Option Proto.Out :
       let sizes ← parseSizes src
       pure (showOut ds (run ops (splitChunks sizes rows)))
   let spec := showOut ds (specChain (specOps ds) rows)
-  pure (mk model spec (chainSig ds rows model))
+  if model == spec then pure { model := model, spec := spec }
+  else pure (mk model spec (chainSig ds rows model))
 
 /-! ### pull -/
 
@@ -228,9 +229,12 @@ def handlePar (morsel table : String) (opToks : List String) : Option Proto.Out 
   let nm := (Exec.generateMorsels rows.length size).length
   let head := s!"m{nm}r{if nm == 0 then 0 else rows.length}|"
   let body (q : Quirks) := if nm == 0 then "norows" else parBody q ds rows
-  let sigs := quirkSigs ds rows
-  pure (mk (head ++ body Quirks.asIs) (head ++ body Quirks.none)
-    (if sigs.isEmpty then "parallel-deviation" else joinWith "+" sigs))
+  let m := head ++ body Quirks.asIs
+  let sp := head ++ body Quirks.none
+  if m == sp then pure { model := m, spec := sp }
+  else
+    let sigs := quirkSigs ds rows
+    pure (mk m sp (if sigs.isEmpty then "parallel-deviation" else joinWith "+" sigs))
 
 /-! ### external sort -/
 
@@ -427,7 +431,9 @@ def handleBig (n mult : String) (opToks : List String) : Option Proto.Out := do
   let model := match ds.foldlM (fun r d => bigStep d r) rows with
     | some r => digest r
     | none => "panic"
-  let spec := digest (specChain (asIsOps ds) rows)
+  -- rows of the generated table are pairwise different: DISTINCT is the identity on them
+  let noDistinct := ds.filter (fun d => match d with | .distinct _ => false | .distinctMat _ => false | _ => true)
+  let spec := digest (specChain (asIsOps noDistinct) rows)
   pure (mk model spec (if model == "panic" then "limit-selection-assert-panic" else "selection-u16-index-wrap"))
 
 /-! ### BinaryExpr -/
@@ -448,6 +454,17 @@ def handleExpr (op a b : String) : Option Proto.Out := do
     | _, _ => "N"
   pure (mk model spec "project-div-overflow-panic")
 
+/-! ### merge of per-worker DISTINCT results -/
+
+/-- `hash_row` of parallel/merge.rs: ONE hasher is fed every column in turn, so the key of a row
+is the concatenation of its columns' feeds -/
+def flatKey (r : Row) : List Nat := (r.map hashFeed).flatten
+
+def handleDmerge (tables : List String) : Option Proto.Out := do
+  let ts ← tables.mapM parseTable
+  pure (mk (showRows (dedupFirst flatKey ts.flatten)) (showRows (dedupFirst (fun r => r) ts.flatten))
+    "merge-distinct-row-hash-collision")
+
 def handle (args : List String) : Option Proto.Out :=
   match args with
   | "chain" :: src :: table :: ops => handleChain src table ops
@@ -460,6 +477,7 @@ def handle (args : List String) : Option Proto.Out :=
   | ["selop", op, phys, sel] => handleSelop op phys sel
   | "big" :: n :: m :: ops => handleBig n m ops
   | ["expr", op, a, b] => handleExpr op a b
+  | "dmerge" :: tables => handleDmerge tables
   | _ => none
 
 end Grafeo.DriverPush
